@@ -468,8 +468,18 @@ func (r *Runner) Step(s Step) *Failure {
 		seq := 1 + int64(s.A*8+s.B)%(di.ServerSeq-1)
 		r.log("admin: view history at serverSeq %d (head %d)", seq, di.ServerSeq)
 		r.Ev["histview"]++
-		if _, err := documents.GetDocumentByServerSeq(r.ctx, r.S.BE, r.Proj, di.Key, seq); err != nil {
+		got, err := documents.GetDocumentByServerSeq(r.ctx, r.S.BE, r.Proj, di.Key, seq)
+		if err != nil {
 			return failf("HISTVIEWFAIL", "seq %d: %v", seq, err)
+		}
+		// the answer computed with the (warm) snapshot cache must be the
+		// answer the store gives: the log prefix replayed from scratch
+		refs, f := r.logPrefixContents(di, seq)
+		if f != nil {
+			return f
+		}
+		if want := refs[seq]; got.Marshal() != want {
+			return failf("HISTVIEWDIFF", "document at serverSeq %d (head %d):\n got %s\nwant %s", seq, di.ServerSeq, got.Marshal(), want)
 		}
 		return nil
 	}
@@ -573,6 +583,59 @@ func (r *Runner) CountConcurrency() int {
 		}
 	}
 	return n
+}
+
+// logPrefixContents replays the stored log from scratch (no cache, no GC) and
+// returns the content after each serverSeq up to upTo.
+func (r *Runner) logPrefixContents(di *database.DocInfo, upTo int64) (map[int64]string, *Failure) {
+	changes, err := r.S.DB.Database.FindChangesBetweenServerSeqs(r.ctx, di.RefKey(), 1, upTo)
+	if err != nil {
+		return nil, failf("HARNESS", "log: %v", err)
+	}
+	ref := document.NewInternalDocument(r.DocKey)
+	refs := map[int64]string{0: ref.Marshal()}
+	for _, c := range changes {
+		seq := c.ServerSeq()
+		if err := ref.ApplyChangePack(change.NewPack(r.DocKey,
+			change.InitialCheckpoint.NextServerSeq(seq), []*change.Change{c}, nil, nil), true); err != nil {
+			return nil, failf("REFAPPLYFAIL", "log replay without GC fails at seq %d: %v", seq, err)
+		}
+		refs[seq] = ref.Marshal()
+	}
+	return refs, nil
+}
+
+// CheckWarmCacheBuilds calls BuildInternalDocForServerSeq for a drawn order of
+// serverSeqs WITHOUT touching the snapshot cache in between (so cached
+// documents of newer and older sequences are met) and compares each answer
+// with the log replay.
+func (r *Runner) CheckWarmCacheBuilds(order []int) *Failure {
+	di, err := r.DocInfo()
+	if err != nil {
+		return failf("HARNESS", "docinfo: %v", err)
+	}
+	if di.ServerSeq < 1 {
+		return nil
+	}
+	refs, f := r.logPrefixContents(di, di.ServerSeq)
+	if f != nil {
+		return f
+	}
+	for _, o := range order {
+		s := 1 + int64(o)%di.ServerSeq
+		d, err := packs.BuildInternalDocForServerSeq(r.ctx, r.S.BE, di, s)
+		if err != nil {
+			return failf("WARMBUILDFAIL", "BuildInternalDocForServerSeq(%d) with a warm cache (head %d): %v", s, di.ServerSeq, err)
+		}
+		if got := d.Marshal(); got != refs[s] {
+			return failf("WARMBUILDDIFF", "seq %d (head %d):\nbuilt: %s\nref:   %s", s, di.ServerSeq, got, refs[s])
+		}
+		if d.Checkpoint().ServerSeq != s {
+			return failf("WARMBUILDSEQ", "asked for serverSeq %d, the built document is at %d", s, d.Checkpoint().ServerSeq)
+		}
+		r.Ev["warm_build_checked"]++
+	}
+	return nil
 }
 
 // CheckServerRebuild compares BuildInternalDocForServerSeq at every serverSeq
